@@ -41,6 +41,12 @@ fn main() {
     if args.is_empty() {
         usage();
     }
+    // anyhow captures a backtrace for every error when these are set (global lock; not an observable)
+    // SAFETY: no other thread exists yet
+    unsafe {
+        std::env::set_var("RUST_BACKTRACE", "0");
+        std::env::set_var("RUST_LIB_BACKTRACE", "0");
+    }
     // run on a big-stack thread (deep search recursion in the checked build)
     let child = std::thread::Builder::new().stack_size(512 << 20).spawn(move || real_main(args)).unwrap();
     let code = child.join().unwrap_or(2);
@@ -82,6 +88,15 @@ fn real_main(args: Vec<String>) -> i32 {
             }
             0
         }
+        "c12bench" => {
+            let p = refchess::parse_fen_strict("8/8/6K1/1Pp5/3k4/8/8/8 w - c6 0 1").unwrap().pos;
+            let strings = props::c12::alphabet();
+            let mut acc = explore::Acc::new();
+            let t = Instant::now();
+            props::c12::alphabet_in_state(&p, &strings, &mut acc);
+            out!("alphabet in one state: {:?}, evaluations {}", t.elapsed(), acc.evaluations);
+            0
+        }
         "replay" => {
             let Some(path) = args.get(1) else { usage() };
             replay(path)
@@ -103,6 +118,8 @@ fn real_main(args: Vec<String>) -> i32 {
             out!("{} [{:.1}s]", note, t0.elapsed().as_secs_f64());
             let outcome = match prop {
                 "C01" | "C02" | "C03" | "C04" | "C11" | "C16" => props::core::run(prop, &tier, seed),
+                "C05" => props::c05::run(&tier, seed),
+                "C12" => props::c12::run(&tier, seed),
                 _ => {
                     out!("MACHINERY-ERROR: unknown property {}", prop);
                     return 2;
@@ -138,6 +155,8 @@ fn replay(path: &str) -> i32 {
     let run = || -> Result<explore::Acc, String> {
         match kind {
             "state" => props::core::replay_state(&prop, r),
+            "c05-variant" | "c05-collision" => props::c05::replay(r),
+            "c12-string" => props::c12::replay(r),
             _ => Err(format!("unknown replay kind {:?}", kind)),
         }
     };
